@@ -70,10 +70,10 @@ func (m c07Meter) ConsumeGas(amount storetypes.Gas, descriptor string) {
 }
 
 type c07World struct {
-	w      *world.L2
-	f      *world.Faults
-	limits []uint64
-	starts map[string]sdk.Context
+	w              *world.L2
+	f              *world.Faults
+	limits         []uint64
+	starts         map[string]sdk.Context
 	setupViolation *engine.Violation
 }
 
@@ -82,8 +82,12 @@ func newC07World() *c07World {
 	cw.w = world.NewL2(world.L2Options{
 		Accounts: map[string]sdk.Coins{"alice": nil, "bob": nil, "executor": nil, "admin": nil, "payee": nil,
 			"hooker": sdk.NewCoins(sdk.NewInt64Coin(c07HookDenom, 100))},
-		WrapBank:    func(b opchildtypes.BankKeeper) opchildtypes.BankKeeper { return world.FaultBank{BankKeeper: b, F: cw.f} },
-		WrapAcc:     func(a opchildtypes.AccountKeeper) opchildtypes.AccountKeeper { return world.FaultAcc{AccountKeeper: a, F: cw.f} },
+		WrapBank: func(b opchildtypes.BankKeeper) opchildtypes.BankKeeper {
+			return world.FaultBank{BankKeeper: b, F: cw.f}
+		},
+		WrapAcc: func(a opchildtypes.AccountKeeper) opchildtypes.AccountKeeper {
+			return world.FaultAcc{AccountKeeper: a, F: cw.f}
+		},
 		WrapAnteAcc: func(a authante.AccountKeeper) authante.AccountKeeper { return world.FaultAnteAcc{Inner: a, F: cw.f} },
 		WrapBankMsg: func(m banktypes.MsgServer) banktypes.MsgServer { return c07BankMsg{m, &cw.limits} },
 	})
@@ -105,13 +109,13 @@ func newC07World() *c07World {
 }
 
 type c07Input struct {
-	Start     string
-	Rcpt      string // menu name
-	Amount    string
-	Denom     string // "A" | "B"
-	HookGas   string // "0" | "tight" | "default"
-	OuterGas  string // "infinite" | "finite"
-	Payload   string
+	Start    string
+	Rcpt     string // menu name
+	Amount   string
+	Denom    string // "A" | "B"
+	HookGas  string // "0" | "tight" | "default"
+	OuterGas string // "infinite" | "finite"
+	Payload  string
 }
 
 func (in c07Input) String() string {
